@@ -299,4 +299,127 @@ def table (T : Name) (cs : List Const) : Table w := cs.map (fun c => (BitVec.ofI
 
 end Bit
 
+/-! ## the emitted file as a RUNNING program
+
+The four tables of the emitted file are package-level VARIABLES (two slices, two maps): every method and
+every runtime helper reads them at call time, and Go would let any of them write.  A program is a
+sequence of calls; `step` is one call against the current tables, `run` a whole history.  In the code
+under verification no call writes (the second component of every `step` arm is the state it was given) —
+that is what `C04_tables_invariant` states and what the correspondence observes by re-running every
+method AFTER a generated history of calls (declared and undeclared values, every helper).
+The getters return the table ITSELF, not a copy: what a CALLER can do with that is `scribble` below. -/
+
+/-- the package-level variables of the emitted file; `_t_max` is a constant and not part of the state -/
+structure Tables where
+  values : List Int                -- `_t_values`
+  strings : List Name              -- `_t_strings`
+  smap : List (Int × Name)         -- `_t_string_map`
+  vmap : List (Name × Int)         -- `_t_value_map`
+  deriving DecidableEq, Repr
+
+/-- the tables as the generated file initializes them -/
+def tablesOf (T : Name) (cs : List Const) : Tables :=
+  ⟨valuesT cs, stringsT T cs, stringMap T cs, valueMap T cs⟩
+
+/-- what is fixed at generation time: the kind of the type, -bit, and the constant `_t_max` (its bit pattern) -/
+structure Prog where
+  kind : Kind
+  bit : Bool
+  mx : BitVec kind.bits
+
+def Prog.mxInt (p : Prog) : Int := if p.kind.signed then p.mx.toInt else (p.mx.toNat : Int)
+
+def progOf (k : Kind) (bit : Bool) (cs : List Const) : Prog :=
+  ⟨k, bit, cs.foldl (fun a c => a ||| BitVec.ofInt k.bits c.val) 0⟩
+
+namespace Bit
+variable {w : Nat}
+/-- String() with -bit as it runs: `_t_string_map` (`names`) and `_t_values` (`vals`) are two separate
+    variables, `mx` is the constant; the loop walks `vals` and looks every name up in `names`
+    (a missing key prints as the empty string) -/
+def stringRT (signed : Bool) (names : Table w) (vals : List (BitVec w)) (mx : BitVec w) (x : BitVec w) : Str :=
+  match names.lookup x with
+  | some s => .name s
+  | none =>
+    if outside signed mx x then .dec (decOf signed x)
+    else
+      let r := loop (vals.map (fun v => (v, (names.lookup v).getD []))) x []
+      if r.1 = 0 ∧ r.2 ≠ [] then .joined r.2 else .dec (decOf signed x)
+end Bit
+
+def Tables.bitNames (st : Tables) (w : Nat) : Bit.Table w := st.smap.map (fun e => (BitVec.ofInt w e.1, e.2))
+def Tables.bitVals (st : Tables) (w : Nat) : List (BitVec w) := st.values.map (BitVec.ofInt w)
+
+/-- `func (x T) String() string` against the current tables -/
+def Tables.string (p : Prog) (st : Tables) (x : Int) : Str :=
+  if p.bit then
+    Bit.stringRT p.kind.signed (st.bitNames p.kind.bits) (st.bitVals p.kind.bits) p.mx (BitVec.ofInt p.kind.bits x)
+  else
+    match st.smap.lookup x with
+    | some s => .name s
+    | none => if x < 0 ∨ x > p.mxInt then .dec x else .dec x
+
+/-- one call of the emitted methods or of the runtime helpers of enumer.go -/
+inductive Call where
+  | string (x : Int) | isValid (x : Int) | values | strings | valueMap | stringMap
+  | parseEnum (s : Name) | tryParse (s : Name) (target : Int) | isEnum (kV : Kind) (v : Int)
+  | unmarshalJSON (d : JsonIn) (target : Int) | unmarshalText (s : Name) (target : Int) | scan (d : SqlIn) (target : Int)
+  | encode (x : Int)                 -- MarshalJSON / MarshalText / Value: the text of String()
+  | has (x f : Int) | add (x f : Int) | remove (x f : Int)
+  deriving DecidableEq, Repr
+
+/-- what a call returns, as the caller sees it -/
+inductive Res where
+  | str (s : Str) | bool (b : Bool) | ints (l : List Int) | names (l : List Name)
+  | vmap (m : List (Name × Int)) | smap (m : List (Int × Name))
+  | parsed (r : Option Int) | tried (r : Bool × Int) | decoded (r : Bool × Int) | int (v : Int)
+  deriving DecidableEq, Repr
+
+/-- one call: (tables afterwards, result).  `IsEnum` ranges over `Values()` = the table itself, `ParseEnum`
+    indexes `ValueMap()` = the map itself; neither they nor any emitted method assigns to a table. -/
+def step (p : Prog) (st : Tables) : Call → Tables × Res
+  | .string x => (st, .str (st.string p x))
+  | .isValid x => (st, .bool (st.smap.lookup x).isSome)
+  | .values => (st, .ints st.values)
+  | .strings => (st, .names st.strings)
+  | .valueMap => (st, .vmap st.vmap)
+  | .stringMap => (st, .smap st.smap)
+  | .parseEnum s => (st, .parsed (parseEnum st.vmap s))
+  | .tryParse s t => (st, .tried (tryParseEnum st.vmap s t))
+  | .isEnum kV v => (st, .bool (isEnum p.kind kV st.values v))
+  | .unmarshalJSON d t => (st, .decoded ((unmarshalJSON st.vmap d t).1.isNone, (unmarshalJSON st.vmap d t).2))
+  | .unmarshalText s t => (st, .decoded ((unmarshalText st.vmap s t).1.isNone, (unmarshalText st.vmap s t).2))
+  | .scan d t => (st, .decoded ((scan st.vmap d t).1.isNone, (scan st.vmap d t).2))
+  | .encode x => (st, .str (st.string p x))
+  | .has x f => (st, .bool (Bit.has (BitVec.ofInt p.kind.bits x) (BitVec.ofInt p.kind.bits f)))
+  | .add x f => (st, .int (Bit.decOf p.kind.signed (Bit.add (BitVec.ofInt p.kind.bits x) (BitVec.ofInt p.kind.bits f))))
+  | .remove x f => (st, .int (Bit.decOf p.kind.signed (Bit.remove (BitVec.ofInt p.kind.bits x) (BitVec.ofInt p.kind.bits f))))
+
+/-- a history of calls: (tables afterwards, results in call order) -/
+def run (p : Prog) : Tables → List Call → Tables × List Res
+  | st, [] => (st, [])
+  | st, c :: rest =>
+    let r := step p st c
+    let q := run p r.1 rest
+    (q.1, r.2 :: q.2)
+
+/-- `Values()`, `Strings()`, `ValueMap()`, `StringMap()` return the package-level slice / map ITSELF: a
+    caller holding the result can write through it -/
+inductive Scribble where
+  | setValue (j : Nat) (v : Int)          -- `T(0).Values()[j] = v`
+  | setString (j : Nat) (s : Name)        -- `T(0).Strings()[j] = s`
+  | putValueMap (s : Name) (v : Int)      -- `T(0).ValueMap()[s] = v`
+  | delValueMap (s : Name)                -- `delete(T(0).ValueMap(), s)`
+  | putStringMap (v : Int) (s : Name)
+  | delStringMap (v : Int)
+  deriving DecidableEq, Repr
+
+def scribble (st : Tables) : Scribble → Tables
+  | .setValue j v => { st with values := st.values.set j v }
+  | .setString j s => { st with strings := st.strings.set j s }
+  | .putValueMap s v => { st with vmap := (s, v) :: st.vmap.filter (fun e => e.1 ≠ s) }
+  | .delValueMap s => { st with vmap := st.vmap.filter (fun e => e.1 ≠ s) }
+  | .putStringMap v s => { st with smap := (v, s) :: st.smap.filter (fun e => e.1 ≠ v) }
+  | .delStringMap v => { st with smap := st.smap.filter (fun e => e.1 ≠ v) }
+
 end ShootVerif.Enum
